@@ -18,13 +18,13 @@ REGISTRY = {
     "C04": ("model_checking", ["qf", "scale"]),
     "C05": ("model_checking", ["bloomfam", "countmin", "cuckoo", "expanding", "scale"]),
     "C06": ("model_checking", ["layout"]),
-    "C07": ("model_checking", ["sizing"]),
+    "C07": ("model_checking", ["sizing", "scale"]),
     "C08": ("model_checking", ["bloomfam", "cuckoo", "scale"]),
     "C09": ("model_checking", ["expanding", "scale"]),
     "C10": ("model_checking", ["expanding", "scale"]),
     "C11": ("fault_enumeration", ["ondisk", "scale"]),
     "C12": ("model_checking", ["bloomfam", "countmin", "scale", "saturation"]),
-    "C13": ("model_checking", ["bloomfam", "countmin", "compat", "saturation"]),
+    "C13": ("model_checking", ["bloomfam", "countmin", "compat", "saturation", "scale"]),
     "C14": ("model_checking", ["bloomfam", "countmin", "qf", "cuckoo", "expanding", "scale"]),
     "C16": ("model_checking", ["bloomfam", "countmin", "saturation"]),
     "C15": ("model_checking", ["cuckoo", "scale"]),
